@@ -462,4 +462,9 @@ func run(c *vm.Ctx) {
 	for i := 0; i < c.Scale(200, 4000); i++ {
 		scripted(c, sr)
 	}
+	pr := c.Rand("peer")
+	for i := 0; i < c.Scale(300, 6000); i++ {
+		libraryClientAgainstPeer(c, pr)
+		libraryServerAgainstPeer(c, pr)
+	}
 }
